@@ -1365,6 +1365,21 @@ def replay(d):
             return 0 if (ok and not lk) else 1
         finally:
             model.close()
+    if kind == "kdf":
+        pw, cycles, salt = r["password"], r["cycles"], bytes.fromhex(r["salt"])
+        pwb = pw.encode("utf-16-le")
+        k1 = ph._calculate_key1(pwb, cycles, salt, "sha256")
+        k3 = ph._calculate_key3(pwb, cycles, salt, "sha256")
+        ki = kdf_indep(pw, cycles, salt)
+        print("key1", k1.hex(), "key3", k3.hex(), "independent", ki.hex())
+        return 0 if k1 == k3 == ki else 1
+    if kind in ("fresh", "append"):
+        members = [(n, bytes.fromhex(x)) for n, x in r.get("members", [])] or [("member-one.txt", b"x" * 40)]
+        a1 = build(members, r["chain"], "same-password", r["hmode"])
+        a2 = build(members, r["chain"], "same-password", r["hmode"])
+        shared = [i for i in range(32, min(len(a1), len(a2)) - 16, 16) if a1[i:i + 16] == a2[i:i + 16]]
+        print("two archives of the same input share 16-byte blocks at offsets", shared[:8])
+        return 1 if shared else 0
     import json
     print(json.dumps(r, default=str)[:2000])
     return 2
